@@ -366,9 +366,15 @@ int main(int argc, char **argv)
                             r.sample(ej);
                         G.sh->done++;
                     };
+                    // lifecycle probes first, tiny budgets only: a planner whose long solves hang or crash (and exhaust the crash cap
+                    // below) still gets its clear / query-switch / planner-data / teardown paths driven; plus the continued solve
+                    // after success with a tiny budget
+                    for (auto &h : std::vector<std::vector<std::string>>{{"S0"}, {"S0", "C"}, {"S1", "C", "S1"}, {"S2", "D", "S2"}, {"S2", "Q", "S2"}, {"S3", "C", "P2", "S3"}, {"S3", "C", "C", "S0", "D"}})
+                        one(Exec{cfg, h, {}}, nullptr);
                     // K = evaluation at which the uninterrupted default run first holds a solution
                     Result r0;
                     one(Exec{cfg, {"SB"}, {}}, &r0);
+                    one(Exec{cfg, {"SB", "S1"}, {}}, nullptr);
                     int K = r0.firstSolutionEval < 0 ? 40 : (int)std::min<long>(r0.firstSolutionEval, a.thorough() ? 120 : 60);
                     r.metrics["max_K"] = std::max<double>(r.metrics["max_K"], K);
                     // replay-twice gate
